@@ -588,3 +588,32 @@ theorem C05_transpose_bentry {α : Type} [CommRing α] (a : BMat α)
     rw [if_pos ⟨hs, by rw [this]; exact hr⟩]
   · have : ¬(b.qj = qj ∧ b.qi = qi) := fun h' => h ⟨h'.2, h'.1⟩
     simp [h, this]
+
+/-- non-vacuity of `C05_eig_assemble`: three sectors, the middle one without stored block; blocks `[[2]]` and
+`[[0, 1], [1, 0]]` with eigen-decompositions `(2; 1)` and `(1, -1; columns (1,1), (1,-1))` (unnormalised, the theorem
+needs only `A_b V_b = V_b diag(w_b)`): the assembled `V`, `w` satisfy `a V = V diag(w)`. -/
+example (qi r k s : Nat) :
+    let m : BMat Int :=
+      { leg0 := { mods := [1], slices := [0, 1, 2, 4], charges := [[0], [1], [2]], qconj := 1, sorted := true, bunched := true },
+        leg1 := { mods := [1], slices := [0, 1, 2, 4], charges := [[0], [1], [2]], qconj := -1, sorted := true, bunched := true },
+        qtotal := [0], blocks := [⟨2, 2, [[0, 1], [1, 0]]⟩, ⟨0, 0, [[2]]⟩] }
+    let F : Nat → Blk Int → List Int × Mat Int :=
+      fun i _ => if i = 0 then ([1, -1], [[1, 1], [1, -1]]) else ([2], [[1]])
+    let perm : Nat → List Int → List Nat := fun _ w => List.range w.length
+    bmul3 m.blocks (fun _ _ => 1) (eigAssemble m F perm).v.blocks m.leg0.blockSizes qi r k s
+      = (eigAssemble m F perm).v.bentry qi r k s * eigW (eigFacs m F perm) k s := by
+  intro m F perm
+  refine C05_eig_assemble m F perm (by decide) (by decide) (by decide) (by decide) ?_ qi r k s
+  intro bi hbi
+  have : bi = (⟨2, 2, [[0, 1], [1, 0]]⟩, 0) ∨ bi = (⟨0, 0, [[2]]⟩, 1) := by simpa [m] using hbi
+  rcases this with rfl | rfl
+  · intro r s
+    have hsz : m.leg0.blockSizes.getD 2 0 = 2 := by decide
+    simp only [hsz]
+    rcases r with _ | _ | r <;> rcases s with _ | _ | s <;>
+      simp [eigFac, F, perm, Mat.entry, Mat.takeCols, Finset.sum_range_succ]
+  · intro r s
+    have hsz : m.leg0.blockSizes.getD 0 0 = 1 := by decide
+    simp only [hsz]
+    rcases r with _ | r <;> rcases s with _ | s <;>
+      simp [eigFac, F, perm, Mat.entry, Mat.takeCols]
